@@ -165,6 +165,36 @@ Fixpoint msteps_ok (sch : schema) (cur t1 : ctable) (p : list op) (os : list obs
       && msteps_ok (sch_after sch o ob) (match obs_tab ob with Some c => c | None => cur end) t1 p' os'
   | _, _ => false
   end.
+(* The second, unobserved run and the OPEN finding C19-single-index-of-unmaterialised-ragged-view: a ragged column of a
+   table just produced by indexing / masking / slicing / sort_by is a lazily indexed view; it stays one through replace
+   of ANOTHER column and add_fields, and is rebuilt by concatenate, the row / dict / pandas round trips and replace of
+   that column.  While some column is such a view, table[i] raises (TypeError) on the pinned code.  The model predicts
+   the error positions of the unobserved run from that per-column state; fix9_lazy_index = true switches the effect off. *)
+Definition bcol_ragged (b : bcol) : bool := match b with ColRag _ _ _ => true | _ => false end.
+Definition col_ragged (c : col) : bool := match c with CBase b => bcol_ragged b | CNest cs => existsb bcol_ragged cs end.
+Fixpoint set_false (k : nat) (l : list bool) : list bool :=
+  match k, l with
+  | O, _ :: r => false :: r
+  | S k', x :: r => x :: set_false k' r
+  | _, [] => []
+  end.
+Definition next_views (o : op) (views : list bool) (cols : ctable) : list bool :=
+  match o with
+  | OTake _ | OMask _ | OSlice _ _ _ | OSort _ => map col_ragged cols
+  | OReplace f _ => set_false f views
+  | OAdd _ _ _ => views ++ [false]
+  | _ => map (fun _ => false) cols
+  end.
+Definition is_err (o : obs) : bool := match o with OErrO => true | _ => false end.
+Fixpoint lazy_pred (views : list bool) (p : list op) (os : list obs) : list bool :=
+  match p, os with
+  | o :: p', ob :: os' =>
+      match o with
+      | OIndex _ => (is_err ob || (existsb (fun b => b) views && negb fix9_lazy_index)) :: lazy_pred views p' os'
+      | _ => is_err ob :: lazy_pred (match ob with OTab cols _ _ => next_views o views cols | _ => views end) p' os'
+      end
+  | _, _ => []
+  end.
 Definition model_ok (c : case) : bool :=
   let m0 := m_construct (k_sch c) (k_a0 c) in
   let m1 := m_construct (k_sch c) (k_a1 c) in
@@ -175,4 +205,4 @@ Definition model_ok (c : case) : bool :=
      end
   && obs_eqb (k_t0 c) (k_t0_after c) && obs_eqb (k_t1 c) (k_t1_after c) && k_unchanged c
   && obs_eqb (final_obs (k_t0 c) (k_steps c)) (k_lazy c)
-  && list_eqb Bool.eqb (step_errs (k_steps c)) (k_lazy_errs c).
+  && list_eqb Bool.eqb (lazy_pred (map (fun _ => false) (k_sch c)) (k_prog c) (k_steps c)) (k_lazy_errs c).
